@@ -147,6 +147,28 @@ def instantiate(t, model):
                 return default
         return v
 
+    # strings that the model needs to be *not* lower-case: pairs (source id, id of its lower-cased form) recorded by the
+    # to_lowercase summary; the source is rendered as an upper-cased spelling of the target's name
+    names = {}
+    i_ = 0
+    while 'lower!%d!src' % i_ in model:
+        src, dst = int(val('lower!%d!src' % i_)), int(val('lower!%d!dst' % i_))
+        if src != dst and src not in STR_NAMES:
+            base = names.get(dst) or STR_NAMES.get(dst, 'sx%d' % dst if dst >= 0 else 'sm%d' % -dst)
+            up = base.upper()
+            if up == base:
+                up = base + 'X'
+            # distinct sources with the same target get distinct casings
+            k_ = 0
+            cand = up
+            while cand in names.values():
+                k_ += 1
+                cand = ''.join(ch.upper() if ((j_ + k_) % 2 == 0 or not ch.isalpha()) else ch.lower() for j_, ch in enumerate(base))
+                if k_ > 8:
+                    break
+            names[src] = cand
+        i_ += 1
+
     def rec(x):
         if isinstance(x, dict):
             if len(x) == 1:
@@ -163,6 +185,8 @@ def instantiate(t, model):
                     return str(int(val(v)) * 10 ** 9)
                 if k == '$str':
                     i = int(val(v))
+                    if i in names:
+                        return names[i]
                     return STR_NAMES.get(i, 'sx%d' % i if i >= 0 else 'sm%d' % -i)
                 if k == '$caddr':
                     from .rawstore import canonical, b64
